@@ -83,7 +83,7 @@ class _CpuTimeout(Exception):
 _TIMEOUTS = [0]  # per worker process
 
 
-def _limited(fn):
+def _limited(fn, limit=3.0):
     """mz.outcome with a CPU-time limit (a defective reader may loop forever); ITIMER_VIRTUAL counts
     only this process's own CPU time, so a loaded machine cannot cause a spurious timeout.  Normal
     calls take 0.1-30 ms; after three timeouts in a worker the limit drops so that the run still ends."""
@@ -93,7 +93,7 @@ def _limited(fn):
         raise _CpuTimeout()
 
     old = signal.signal(signal.SIGVTALRM, on_alarm)
-    signal.setitimer(signal.ITIMER_VIRTUAL, 3.0 if _TIMEOUTS[0] < 3 else 0.3)
+    signal.setitimer(signal.ITIMER_VIRTUAL, limit if _TIMEOUTS[0] < 3 else limit / 10)
     try:
         r = mz.outcome(fn)
     finally:
@@ -119,11 +119,11 @@ def build(kind, conn, s=None, e=None, sol=None):
     return mz.SolvedMaze(connection_list=conn, solution=np.array(sol))
 
 
-def observe_new(kind, conn, s, e, sol, src, tab, views=VIEWS):
+def observe_new(kind, conn, s, e, sol, src, tab, views=VIEWS, **kw):
     """construct the maze value and observe it; a constructor that refuses a valid value is an outcome too"""
     res, m = mz.outcome(lambda: build(kind, conn, s, e, sol))
     if res == "ok":
-        return observe(m, src, tab, views)
+        return observe(m, src, tab, views, **kw)
     if kind == "SolvedMaze":
         s, e = sol[0], sol[-1]
     pm = dict(kind=kind, R=int(conn.shape[1]), C=int(conn.shape[2]), conn=mz.raw(conn), start=[int(v) for v in s] if s is not None else [],
@@ -131,38 +131,67 @@ def observe_new(kind, conn, s, e, sol, src, tab, views=VIEWS):
     return [dict(maze=pm, se=se, ss=ss, res_px=res, res_ascii=res, img=[], ascii=[], rt_px="na", back_px=[], rt_ascii="na", back_ascii=[], src=src) for se, ss in views]
 
 
-def observe(m, src, tab, views=VIEWS):
-    """one record per flag pair: the two renderings and what the readers make of exactly them"""
+def observe(m, src, tab, views=VIEWS, reads=1, scribble=False, limit=3.0, hold=None):
+    """one record per flag pair (in the given order, repeats allowed): the two renderings and what the
+    readers make of exactly them.  History options (audit class A): reads > 1 = the SAME picture object /
+    text is read again (one more record per extra read: a reader must not consume or remember its input);
+    scribble = the returned array is overwritten afterwards (a later rendering must not show it);
+    hold = a list: returned pictures and mazes are kept alive and projected only when settle(hold) is called
+    after further calls (a result must not alias state that later calls change)."""
     cls = type(m)
     pm = mz.proj(m)
     out = []
     for se, ss in views:
-        rp, img = _limited(lambda: m.as_pixels(show_endpoints=se, show_solution=ss))
-        ra, asc = _limited(lambda: m.as_ascii(show_endpoints=se, show_solution=ss))
+        rp, img = _limited(lambda: m.as_pixels(show_endpoints=se, show_solution=ss), limit)
+        ra, asc = _limited(lambda: m.as_ascii(show_endpoints=se, show_solution=ss), limit)
         rec = dict(maze=pm, se=se, ss=ss, res_px=rp, res_ascii=ra, img=[], ascii=[], rt_px="na", back_px=[], rt_ascii="na", back_ascii=[], src=src)
+        mine = []
         if rp == "ok":
             code = _pal(img, tab)
             if code is None:
-                rec["res_px"] = "raise:NotAnImage"
+                rec["res_px"] = rp = "raise:NotAnImage"
             else:
-                rec["img"] = code
-                rt, b = _limited(lambda: cls.from_pixels(img))
-                if rt == "ok":
-                    rt, pb = _proj(b)
-                    rec["back_px"] = pb
-                rec["rt_px"] = rt
-        if ra == "ok":
-            if not isinstance(asc, str):
-                rec["res_ascii"] = "raise:NotAString"
-            else:
-                rec["ascii"] = [list(row) for row in asc.split("\n")]
-                rt, b = _limited(lambda: cls.from_ascii(asc))
-                if rt == "ok":
-                    rt, pb = _proj(b)
-                    rec["back_ascii"] = pb
-                rec["rt_ascii"] = rt
-        out.append(rec)
+                rec["img"] = code  # the picture as rendered; every read below is a read of this picture
+        if ra == "ok" and not isinstance(asc, str):
+            rec["res_ascii"] = ra = "raise:NotAString"
+        for k in range(reads):
+            if k:
+                rec = dict(rec, src=f"{src}:read{k + 1}", rt_px="na", back_px=[], rt_ascii="na", back_ascii=[])
+            mine.append(rec)
+            for ok, key, call in ((rp, "px", lambda: cls.from_pixels(img)), (ra, "ascii", lambda: cls.from_ascii(asc))):
+                if ok != "ok":
+                    continue
+                if key == "ascii":
+                    rec["ascii"] = [list(row) for row in asc.split("\n")]
+                rt, b = _limited(call, limit)
+                if rt == "ok" and hold is not None:
+                    hold.append(("back", rec, key, b))
+                elif rt == "ok":
+                    rt, rec["back_" + key] = _proj(b)
+                rec["rt_" + key] = rt
+            out.append(rec)
+        if scribble and rp == "ok":
+            try:
+                img[...] = 77  # the caller owns the returned array
+            except Exception:  # noqa: BLE001 - read-only result: nothing to scribble
+                pass
+        elif hold is not None and rp == "ok":
+            hold.append(("img", mine, tab, img))
     return out
+
+
+def settle(hold):
+    """project the results that were kept alive while other calls were made"""
+    for h in hold:
+        if h[0] == "back":
+            _, rec, key, b = h
+            rec["rt_" + key], rec["back_" + key] = _proj(b)
+        else:
+            _, recs, tab, img = h
+            code = _pal(img, tab)
+            for rec in recs:
+                rec["img"] = code if code is not None else [[9]]
+    hold.clear()
 
 
 def observe_graphs(args):
@@ -281,6 +310,146 @@ def observe_snake(args):
     out = observe_new("SolvedMaze", conn, None, None, path, src, tab)
     out += observe_new("SolvedMaze", conn, None, None, path[::-1], src, tab)
     out += observe_new("TargetedLatticeMaze", conn, path[0], path[-1], None, src, tab)
+    return out
+
+
+# ------------------------------------------------------------------ audit class A: histories
+ACC = VIEWS[:3]
+
+
+def _use(m):
+    """legitimate uses of a maze value between two renderings (none may change what is drawn)"""
+    for f in (lambda: hash(m), lambda: m == m, lambda: m.get_nodes(), lambda: m.as_adj_list(), lambda: m.get_coord_neighbors((0, 0)),
+              lambda: m.find_shortest_path((0, 0), (m.connection_list.shape[1] - 1, m.connection_list.shape[2] - 1)), lambda: m._as_pixels_bw()):
+        mz.outcome(f)
+
+
+def observe_history(args):
+    """one process, one connection structure, several maze values on it: the SAME objects rendered and read
+    repeatedly under changing flags (A-B-A), returned arrays scribbled over, the same picture read twice,
+    values used in between, equal-but-distinct / same-graph-different-solution / reloaded objects interleaved.
+    Every single observation is an ordinary record: history must not matter."""
+    seed, k = args
+    rng = np.random.default_rng([seed, 11, k])
+    tab = _palette()
+    r, c = int(rng.integers(2, 7)), int(rng.integers(2, 7))
+    gen = ["dfs", "perc", "dfs_perc"][k % 3]
+    try:
+        conn = np.array(_gen_conn(rng, gen, r, c), dtype=bool)
+        assert conn.shape == (2, r, c)
+    except Exception:  # noqa: BLE001
+        conn = mz.rand_conn(rng, r, c, 0.6)
+    conn[0, -1, :] = False
+    conn[1, :, -1] = False
+    src = f"hist:{seed}:{k}:{gen}:{r}x{c}"
+    s0 = (int(rng.integers(0, r)), int(rng.integers(0, c)))
+    far = mz.bfs(conn, s0)
+    e0 = max(far, key=lambda x: (far[x], x))
+    p = _rand_shortest(conn, s0, e0, rng)
+    p2 = _rand_shortest(conn, e0, s0, rng)  # same graph, another solution (reverse direction)
+    seq = [ACC[int(i)] for i in rng.permutation(3)]
+    seq = seq + [VIEWS[3], seq[0], seq[2], seq[1], seq[0]]  # A B C (rejected) A C B A
+    out = []
+    hold = []
+    objs = {}
+    for name, (kind, a) in dict(sv=("SolvedMaze", (None, None, p)), tg=("TargetedLatticeMaze", (s0, e0, None)), lat=("LatticeMaze", (None, None, None)),
+                                sv2=("SolvedMaze", (None, None, p2)), sveq=("SolvedMaze", (None, None, [tuple(x) for x in p]))).items():
+        res, m = mz.outcome(lambda: build(kind, conn.copy() if name == "sveq" else conn, *a))
+        if res == "ok":
+            objs[name] = m
+    if "sv" in objs:
+        out += observe(objs["sv"], src + ":sv", tab, seq, reads=2, scribble=True, hold=hold)
+        _use(objs["sv"])
+        out += observe(objs["sv"], src + ":sv-used", tab, seq[::-1], scribble=True)
+        settle(hold)
+        res, m = mz.outcome(lambda: type(objs["sv"]).load(objs["sv"].serialize()))
+        if res == "ok" and type(m).__name__ == "SolvedMaze":
+            objs["svload"] = m
+    for v in seq:  # interleaved: values sharing a graph / a value / a class, one flag pair at a time
+        for name in [str(x) for x in rng.permutation(sorted(objs))]:
+            out += observe(objs[name], f"{src}:{name}", tab, [v], reads=1 + int(rng.integers(0, 2)), scribble=bool(rng.integers(0, 2)), hold=hold)
+    settle(hold)
+    return out
+
+
+def _snake(r, c):
+    conn = np.zeros((2, r, c), dtype=bool)
+    path = []
+    for i in range(r):
+        path += [(i, j) for j in (range(c) if i % 2 == 0 else range(c - 1, -1, -1))]
+    for a, b in zip(path, path[1:]):
+        lo = min(a, b)
+        conn[0 if a[0] != b[0] else 1, lo[0], lo[1]] = True
+    return conn, path
+
+
+SIZE_ORDERS = [
+    [(7, 7), (7, 4), (4, 7), (3, 3), (2, 5), (1, 2)],  # decreasing
+    [(1, 2), (2, 2), (2, 5), (4, 4), (4, 9), (9, 4)],  # increasing
+    [(4, 2), (4, 6), (4, 2), (6, 4), (2, 4), (6, 6), (1, 1), (6, 6)],  # narrow then wider with the same row count, scrambled, repeats
+]
+
+
+def observe_sizes(args):
+    """one process: the same functions / classes applied to pictures of different sizes in a fixed order"""
+    order, rev = args
+    tab = _palette()
+    out = []
+    hold = []
+    seq = SIZE_ORDERS[order][::-1] if rev else SIZE_ORDERS[order]
+    for n, (r, c) in enumerate(seq):
+        conn, path = _snake(r, c)
+        src = f"sizes:{order}:{int(rev)}:{n}:{r}x{c}"
+        out += observe_new("SolvedMaze", conn, None, None, path, src, tab, ACC, hold=hold)
+        out += observe_new("TargetedLatticeMaze", conn, path[-1], path[0], None, src, tab, ACC[:2], hold=hold)
+        out += observe_new("LatticeMaze", conn, None, None, None, src, tab, ACC[2:], hold=hold)
+    settle(hold)
+    return out
+
+
+# ------------------------------------------------------------------ audit class B: magnitudes
+BIG = ["dfs66", "row130", "col130", "snake2x70", "snake70x2", "snake16x17", "cut127", "cut128", "cut129", "cut255", "cut256", "cut257"]
+
+
+def observe_big(name):
+    """pixel coordinates beyond 127 (66x66, 2x70) and 255 (1x130), solutions of 127..129 and 255..257 and 272+ cells"""
+    tab = _palette()
+    src = "big:" + name
+    if name.startswith("dfs66"):  # cell index 64, 65 -> pixel coordinates 129, 131
+        n = 66
+        rng = np.random.default_rng([n, n])
+        try:
+            conn = np.array(_gen_conn(rng, "dfs", n, n), dtype=bool)
+            assert conn.shape == (2, n, n)
+        except Exception:  # noqa: BLE001
+            conn = mz.rand_conn(rng, n, n, 0.6)
+        conn[0, -1, :] = False
+        conn[1, :, -1] = False
+        a = (n - 1, n - 1)
+        d0 = mz.bfs(conn, a)
+        if name == "dfs66long":  # thorough: a longest shortest path (~1800 cells; the oracle is quadratic in it)
+            a = max(d0, key=lambda x: (d0[x], x))
+            d0 = mz.bfs(conn, a)
+            b = max(d0, key=lambda x: (d0[x], x))
+        else:
+            lim = min(300, max(d0.values()))
+            b = max((x for x in d0 if d0[x] == lim), key=lambda x: (min(x), x))
+        p = _rand_shortest(conn, a, b, rng)
+        out = observe_new("SolvedMaze", conn, None, None, p, src, tab, VIEWS[:2] + VIEWS[3:], limit=60.0)
+        if name == "dfs66":
+            out += observe_new("SolvedMaze", conn, None, None, p[::-1], src, tab, VIEWS[:1], limit=60.0)
+            out += observe_new("TargetedLatticeMaze", conn, (n - 1, n - 2), (n - 2, n - 1), None, src, tab, VIEWS[1:2], limit=60.0)
+            out += observe_new("LatticeMaze", conn, None, None, None, src, tab, VIEWS[2:3], limit=60.0)
+        return out
+    if name.startswith("cut"):
+        conn, path = _snake(16, 17)
+        path = path[: int(name[3:])]
+    else:
+        r, c = dict(row130=(1, 130), col130=(130, 1), snake2x70=(2, 70), snake70x2=(70, 2), snake16x17=(16, 17))[name]
+        conn, path = _snake(r, c)
+    out = observe_new("SolvedMaze", conn, None, None, path, src, tab, VIEWS[:2], limit=30.0)
+    out += observe_new("SolvedMaze", conn, None, None, path[::-1], src, tab, VIEWS[:1], limit=30.0)
+    out += observe_new("TargetedLatticeMaze", conn, path[-1], path[0], None, src, tab, VIEWS[1:3], limit=30.0)
     return out
 
 
@@ -441,10 +610,10 @@ def _case(x):
     return {k: x[k] for k in ("maze", "se", "ss", "res_px", "res_ascii", "img", "ascii", "rt_px", "rt_ascii", "src")}
 
 
-def _judge_batch(chk, cap, recs, label, what):
+def _judge_batch(chk, cap, recs, label, what, **kw):
     if chk.tier == "thorough":
         print(f"[C10] batch {label}: {len(recs)} records", flush=True)
-    lib.judge_with_canaries(cap, "Trace_Pixels", recs, make_canaries(), label=label, what=what, case_of=_case, extra_env=JVM_ENV)
+    lib.judge_with_canaries(cap, "Trace_Pixels", recs, make_canaries(), label=label, what=what, case_of=_case, extra_env=JVM_ENV, **kw)
     if any(c == "M:input_malformed" for c, _ in chk.divergences):
         raise lib.MachineryError("the driver produced a maze outside the scope of the statement (M:input_malformed)")
     for x in recs:
@@ -464,7 +633,8 @@ def main(chk: lib.Check) -> int:
         "{LatticeMaze, TargetedLatticeMaze with every ordered (start,end) incl. start=end, SolvedMaze with every shortest path of every pair} "
         "x the 4 flag pairs; seeded random mazes (percolation p in {.3,.5,.7}, dfs, dfs+percolation) of shapes up to 12x12 "
         "(1/3 square, 1/3 forced oblong incl. single rows/columns) with random, adjacent, farthest and start=end pairs, random shortest paths "
-        "and one random simple (usually non-shortest) walk; non-trivial = kind with start != end on a graph with at least one edge under an accepted flag pair"
+        "and one random simple (usually non-shortest) walk; histories (same object / same picture / same class observed repeatedly in one process, results scribbled over) "
+        "and magnitude cases (pixel coordinates > 127 and > 255, solutions around 128 / 256 cells and longer); non-trivial = kind with start != end on a graph with at least one edge under an accepted flag pair"
     )
     chk.notes["records_by_kind"] = {}
     # ---- (A) design-level model checking
@@ -513,6 +683,26 @@ def main(chk: lib.Check) -> int:
                 chk.sample({k: v for k, v in _case(big[0]).items() if k not in ("img",)})
         _judge_batch(chk, cap, recs, f"rnd{b0}", "seeded random mazes up to 12x12 + boustrophedon corridors")
     chk.notes["random_mazes"] = nrand
+
+    # ---- (C) audit class A: histories (the same objects / functions observed repeatedly; every observation is an ordinary record)
+    nh = 480 if thorough else 48
+    recs = [x for sub in lib.pmap(observe_history, [(chk.seed, k) for k in range(nh)], chunksize=2) for x in sub]
+    recs += [x for sub in lib.pmap(observe_sizes, [(o, rev) for o in range(len(SIZE_ORDERS)) for rev in (False, True)]) for x in sub]
+    chk.notes["history_records"] = len(recs)
+    chk.notes["history_rereads"] = sum(1 for x in recs if ":read" in x["src"])
+    _judge_batch(chk, cap, recs, "hist", "histories: same object re-rendered under changing flags (A-B-A) with the returned array scribbled over, the same picture read twice, "
+                 "values used / reloaded / interleaved with equal and same-graph values, the same class reading pictures of decreasing, increasing and scrambled sizes in one process")
+    # ---- (C) audit class B: magnitudes
+    names = BIG + (["dfs66long"] if thorough else [])
+    subs = lib.pmap(observe_big, names)
+    recs = [x for n, sub in zip(names, subs) if not n.startswith("dfs66") for x in sub]
+    heavy = [x for n, sub in zip(names, subs) if n.startswith("dfs66") for x in sub]
+    for i, x in enumerate(heavy):  # spread the 133x133 pictures over the oracle shards
+        recs.insert((i * len(recs)) // len(heavy), x)
+    chk.notes["big_cases"] = names
+    chk.notes["max_pixel_coordinate"] = max(max(len(x["img"]), len(x["img"][0]) if x["img"] else 0) for x in recs) - 1
+    chk.notes["max_solution_cells"] = max(len(x["maze"]["sol"]) for x in recs)
+    _judge_batch(chk, cap, recs, "big", "magnitudes: 66x66 (pixel coordinates 129..132), 1x130/130x1 (> 255), 2x70/70x2, solutions of 127,128,129,255,256,257,272 (and ~1800 in thorough) cells", shards=16)
     chk.notes["rejected_record_groups"] = {"|".join(map(str, k)): v for k, v in sorted(cap.seen.items(), key=str)}
     chk.assumptions = [
         "TLC, CommunityModules JSON reader, CPython/numpy",
